@@ -39,6 +39,14 @@ def orient(atom: Atom, row: dict) -> Optional[Atom]:
     return None
 
 
+def _difference_form(atom: Atom) -> bool:
+    """`f(q - limit) REL 0`: one side is the constant 0, the other a difference that involves an attribute of self."""
+    for a in (atom, atom.mirrored()):
+        if "const:0" in a.rhs.roots and len(a.rhs.roots) <= 2 and "Sub" in a.lhs.tags and any(r.startswith("self.") for r in a.lhs.roots) and any(not r.startswith(("self.", "const:", "num:")) for r in a.lhs.roots):
+            return True
+    return False
+
+
 def private_helpers(E: Engine, f: FunctionInfo, depth: int = 2) -> list[tuple[FunctionInfo, FunctionInfo, object]]:
     """Private helpers (``self._x(...)`` of the same class hierarchy, module-level ``_x(...)``) called by ``f``:
     (helper, caller, call node).  A validation extracted into such a helper is still part of the validation of ``f``.
@@ -151,8 +159,8 @@ def check_rows(E: Engine, rep: Report, rule: str, rows: list[dict], source: str 
             found_wrong = []
             for line, conj in conjs:
                 for lit in conj:
-                    if lit.atom is None:
-                        continue
+                    if lit.atom is None or _difference_form(lit.atom):
+                        continue  # (`round(q - limit, 6) > 0` is decided on the symbolic normal form, which keeps the signs)
                     a = orient(lit.atom, row)
                     if a is None:
                         continue
@@ -249,6 +257,48 @@ def _sym_side(t, roots, tags, not_tags=()) -> bool:
     return all(_sym_root(t, r) for r in roots) and all(_sym_tag(t, g) for g in tags) and not any(_sym_tag(t, g) for g in not_tags)
 
 
+def _difference_sides(core, row) -> list:
+    """`round(q - L, n) REL 0` (or `0 REL ...`) read as `q REL L`: [(q, L, rel)].  The rounding of the difference is a
+    tolerance on the comparison (precision checked against the row's not_q_tags), not a rounding of the quantity."""
+    from . import sym
+
+    out = []
+    for x, zero, rel in ((core[2], core[3], core[1]), (core[3], core[2], _MIRROR[core[1]])):
+        if not (zero[0] == "const" and isinstance(zero[1], (int, float)) and not isinstance(zero[1], bool) and zero[1] == 0):
+            continue
+        while x[0] == "obj":
+            x = x[2]
+        prec = None
+        if x[0] == "call" and (x[1][1] if x[1][0] == "name" else x[1][2] if x[1][0] == "attr" else "") in ("round", "round_", "around") and x[2]:
+            d_ = dict(x[3]).get("decimals") or (x[2][1] if len(x[2]) > 1 else ("const", 0))
+            prec = d_[1] if d_[0] == "const" else None
+            x = x[2][0]
+            while x[0] == "obj":
+                x = x[2]
+        if x[0] != "add":
+            continue
+        if prec is not None and isinstance(prec, int) and prec < 5:
+            continue  # (a tolerance of 1e-4 and coarser is not "the limit")
+        pos, neg = [], []
+        for t in x[1:]:
+            if t[0] == "mul" and any(f[0] == "const" and isinstance(f[1], (int, float)) and f[1] < 0 for f in t[1:]):
+                rest = [f for f in t[1:] if not (f[0] == "const" and isinstance(f[1], (int, float)) and f[1] < 0)]
+                coef = [f[1] for f in t[1:] if f[0] == "const" and isinstance(f[1], (int, float)) and f[1] < 0]
+                if coef != [-1]:
+                    neg = pos = None
+                    break
+                neg.append(rest[0] if len(rest) == 1 else ("mul",) + tuple(rest))
+            else:
+                pos.append(t)
+        if not pos or not neg:
+            continue
+        P_ = pos[0] if len(pos) == 1 else ("add",) + tuple(pos)
+        N_ = neg[0] if len(neg) == 1 else ("add",) + tuple(neg)
+        out.append((P_, N_, rel))            # P - N rel 0  ==  P rel N
+        out.append((N_, P_, _MIRROR[rel]))   # ... == N mirror(rel) P
+    return out
+
+
 def _sym_fallback(E: Engine, f: FunctionInfo, row: dict) -> Optional[tuple[bool, str]]:
     """(True, atom) when a raise of ``f`` is guarded by the row's atom, (False, why) when the atom is there with the
     wrong relation / without its None guard, None when no atom relating the two sides exists."""
@@ -272,7 +322,9 @@ def _sym_fallback(E: Engine, f: FunctionInfo, row: dict) -> Optional[tuple[bool,
                             core = core[2]
                 if core[0] != "cmp" or core[1] not in _MIRROR:
                     continue
-                for q, lim, rel in ((core[2], core[3], core[1]), (core[3], core[2], _MIRROR[core[1]])):
+                sides = [(core[2], core[3], core[1]), (core[3], core[2], _MIRROR[core[1]])]
+                sides += _difference_sides(core, row)
+                for q, lim, rel in sides:
                     if not (_sym_side(q, row["quantity"], row.get("q_tags", []), row.get("not_q_tags", ())) and _sym_side(lim, row["limit"], row.get("l_tags", []))):
                         continue
                     text = sym.show(lit)[:120]
